@@ -64,6 +64,11 @@ func (l *Loaded) InitOrder(prefixes []string) []*ssa.Package {
 	var out []*ssa.Package
 	seen := map[*ssa.Package]bool{}
 	match := func(p string) bool {
+		// go-swagger generated code: its initialisers only build validation enums through
+		// encoding/json (not modelled) and are irrelevant to every kernel
+		if strings.Contains(p, "/internal/frontend/gen/") {
+			return false
+		}
 		for _, x := range prefixes {
 			if strings.HasPrefix(p, x) {
 				return true
